@@ -49,12 +49,25 @@ def derive_source(case, schema_rel, query_rel):
     import random as _random
     _r = _random.Random("attr-order:" + str(case.get("id")))
     _r.shuffle(keys)
-    # a bare flag (no `= value`) directly in front of another item is the layout a token-skipping parser gets wrong: in half
-    # of the cases that carry the flag it stands directly before the item the calling check cares about (or a random one)
-    if "skip_serializing_none" in keys and len(keys) > 1 and _r.random() < 0.5:
+    # the item the calling check depends on (`attr_focus`) takes, in turn, the places where an attribute scanner is most likely
+    # to go wrong: directly after the bare flag (no `= value`), directly before it, first, last
+    focus = [k for k in keys if case.get("attr_focus") and k.startswith(case["attr_focus"])]
+    if focus:
+        f = focus[0]
+        keys.remove(f)
+        flag = "skip_serializing_none" in keys
+        mode = case["attr_mode"] % 4 if "attr_mode" in case else _r.randrange(4)
+        if mode == 0 and flag:
+            keys.insert(keys.index("skip_serializing_none") + 1, f)
+        elif mode == 1 and flag:
+            keys.insert(keys.index("skip_serializing_none"), f)
+        elif mode == 2:
+            keys.insert(0, f)
+        else:
+            keys.append(f)
+    elif "skip_serializing_none" in keys and len(keys) > 1 and _r.random() < 0.5:
         keys.remove("skip_serializing_none")
-        focus = [i for i, k in enumerate(keys) if case.get("attr_focus") and k.startswith(case["attr_focus"])]
-        keys.insert(focus[0] if focus else _r.randrange(len(keys)), "skip_serializing_none")
+        keys.insert(_r.randrange(len(keys)), "skip_serializing_none")
     vis = {"pub": "pub ", "pub(crate)": "pub(crate) ", "inherited": "", None: ""}[o.get("visibility")]
     rust = (o.get("normalization") or "").strip().lower() == "rust"
     for op in doc["operations"]:
